@@ -26,4 +26,9 @@ theorem dropFirstChr_spec {r b : Re} {c : Char} (h : r.dropFirstChr c = some b) 
     · cases h
   · cases h
 
+/-- a posting no validator accepts: padded source, asset outside the pattern, negative amount -/
+def badPosting : RawPosting :=
+  { source := [' ', 'b', 'a', 'n', 'k', '\n'], destination := "users:001".toList,
+    asset := "USD/".toList, amount := some (-5) }
+
 end Ledger.Chart
